@@ -387,6 +387,24 @@ def check_supported_accepted(db, rep):
                 rep.fail('C.dim.accept', '%s/%d' % (site, d), where, 'supported dimension %d accepted' % d, '%s: %s' % (out, detail), sig(fn))
 
 
+def check_fused(db, rep, tier):
+    """`v += expression` and `v -= expression` with an expression of another dimension are binary operations between
+    operands of different dimension too: every such statement of the lifecycle exploration (all nine operations, operand
+    value categories and storage kinds; shared with C08/C09) must raise, whether or not an operand's storage could be taken"""
+    import lifecycle
+    data = lifecycle.explore_cached(db, tier)
+    seen = set()
+    n = sum(1 for k in data['ops'] if k.startswith('v += ') or k.startswith('v -= '))
+    for (rule, site, where, expected, found, function, exc, af) in data['findings']:
+        if rule == 'B.mustthrow' and 'size-mismatched' in expected and not af and site not in seen:
+            seen.add(site)
+            if len(seen) <= 12:
+                rep.fail('C.dim.fused', site, where, 'an exception for a compound assignment between different dimensions', found, function)
+    if not seen:
+        rep.ok('C.dim.fused', n)
+    rep.floor('C.dim.fused', n, 30)
+
+
 def run(db, rep, tier):
     rep.trusted += ['clang 14 AST of /repo sources', 'sqdump extractor + abstract interpreter with extent-checked abstract memory blocks',
                     'callee summaries: cache get/insert (empty / refuse), gsl matrix accessors, std::vector, Const getters (opaque values)',
@@ -394,3 +412,4 @@ def run(db, rep, tier):
     check_binary(db, rep)
     check_ctors(db, rep)
     check_supported_accepted(db, rep)
+    check_fused(db, rep, tier)
